@@ -36,6 +36,8 @@ CONSTANTS Chans,          \* channel indices
                           \* limit (the default 2 MiB window against payloads of at most 512 KiB)
           EventBeforeStatus, \* FALSE (the code): _handle_request stores exit_status, then sets status_event;
                           \* TRUE: mutation, the event is set first and the value stored afterwards
+          AllowOff,       \* TRUE: the application may also call set_combine_stderr(False) after the switch on
+                          \* (CombineOff); FALSE: combining is switched on at most once and stays on
           Mutation        \* "none" or the name of a deliberately wrong variant (sensitivity runs)
 
 \* An exit status is a uint32 (RFC 4254 6.10).  TLC integers are 32-bit signed, so a status is the pair
@@ -56,7 +58,11 @@ VARIABLES sent,        \* [Chans -> [Eps -> Nat]]   bytes written so far by the 
           buf,         \* [Chans -> [Eps -> Seq(run)]]  in_buffer / in_stderr_buffer
           got,         \* [Chans -> [Eps -> Seq(run)]]  what recv / recv_stderr returned so far
           combine,     \* [Chans -> BOOLEAN]            Channel.combine_stderr
-          swpc,        \* [Chans -> {"off","moved","on"}] progress of set_combine_stderr(True)
+          swpc,        \* [Chans -> {"off","moved","on","offagain"}] progress of set_combine_stderr(True);
+                       \* "offagain": set_combine_stderr(False) has returned after an earlier switch on
+          offAt,       \* [Chans -> Nat]  how many stderr bytes the peer had written when combining was switched
+                       \* off again (0 before): anything the peer writes to stderr from there on was written
+                       \* while combining is off
           moved,       \* [Chans -> Seq(run)]  old stderr bytes held by the switching thread
           tpc,         \* transport thread inside _feed_extended: <<>> or <<[m, flag]>>
           status,      \* [Chans -> Statuses \cup {None}]  exit status register at the reader
@@ -66,7 +72,7 @@ VARIABLES sent,        \* [Chans -> [Eps -> Nat]]   bytes written so far by the 
           win,         \* [Chans -> Nat]  what is left of the peer's send window (stays 0 when Window = 0)
           shut         \* [Chans -> BOOLEAN]  the peer's EOF or CLOSE has been processed here: _handle_eof /
                        \* _set_closed have called close() on in_buffer and in_stderr_buffer
-vars == <<sent, statusSent, wire, buf, got, combine, swpc, moved, tpc, status, pstate, shut, statusEv, reported, win>>
+vars == <<sent, statusSent, wire, buf, got, combine, swpc, offAt, moved, tpc, status, pstate, shut, statusEv, reported, win>>
 
 (* ------------------------------------------------------------------ runs *)
 Run(c, s, pos, n) == [c |-> c, s |-> s, pos |-> pos, n |-> n]
@@ -105,6 +111,7 @@ Init == /\ sent = [c \in Chans |-> [e \in Eps |-> 0]]
         /\ got = [c \in Chans |-> [e \in Eps |-> <<>>]]
         /\ combine = [c \in Chans |-> FALSE]
         /\ swpc = [c \in Chans |-> "off"]
+        /\ offAt = [c \in Chans |-> 0]
         /\ moved = [c \in Chans |-> <<>>]
         /\ tpc = <<>>
         /\ status = [c \in Chans |-> None]
@@ -129,25 +136,25 @@ PeerWrite(c, s, n) ==
        /\ wire' = Append(wire, Run(c, s, sent[c][s], k))
        /\ win' = IF Window = 0 THEN win ELSE [win EXCEPT ![c] = @ - k]
   /\ sent' = [sent EXCEPT ![c][s] = @ + n]
-  /\ UNCHANGED <<statusSent, buf, got, combine, swpc, moved, tpc, status, pstate, shut, statusEv, reported>>
+  /\ UNCHANGED <<statusSent, buf, got, combine, swpc, offAt, moved, tpc, status, pstate, shut, statusEv, reported>>
 
 PeerExit(c, v) ==
   /\ statusSent[c] = None /\ pstate[c] # "closed"
   /\ statusSent' = [statusSent EXCEPT ![c] = v]
   /\ wire' = Append(wire, Run(c, "exit", v, 0))
-  /\ UNCHANGED <<sent, buf, got, combine, swpc, moved, tpc, status, pstate, shut, statusEv, reported, win>>
+  /\ UNCHANGED <<sent, buf, got, combine, swpc, offAt, moved, tpc, status, pstate, shut, statusEv, reported, win>>
 
 \* shutdown_write() / close() on the peer's end: CHANNEL_EOF, CHANNEL_CLOSE (no data after either)
 PeerEof(c) ==
   /\ pstate[c] = "open"
   /\ pstate' = [pstate EXCEPT ![c] = "eof"]
   /\ wire' = Append(wire, Run(c, "eof", 0, 0))
-  /\ UNCHANGED <<sent, statusSent, buf, got, combine, swpc, moved, tpc, status, shut, statusEv, reported, win>>
+  /\ UNCHANGED <<sent, statusSent, buf, got, combine, swpc, offAt, moved, tpc, status, shut, statusEv, reported, win>>
 PeerClose(c) ==
   /\ pstate[c] # "closed"
   /\ pstate' = [pstate EXCEPT ![c] = "closed"]
   /\ wire' = Append(wire, Run(c, "close", 0, 0))
-  /\ UNCHANGED <<sent, statusSent, buf, got, combine, swpc, moved, tpc, status, shut, statusEv, reported, win>>
+  /\ UNCHANGED <<sent, statusSent, buf, got, combine, swpc, offAt, moved, tpc, status, shut, statusEv, reported, win>>
 
 \* BufferedPipe.feed: a pipe that has been closed still takes data (set_combine_stderr relies on it when the
 \* switch comes after the peer's EOF / CLOSE)
@@ -160,7 +167,7 @@ FeedOut ==
   /\ tpc = <<>> /\ wire # <<>> /\ Head(wire).s = "out"
   /\ LET m == Head(wire) IN buf' = [buf EXCEPT ![Dest(m.c)].out = Fed(@, Dest(m.c), <<m>>)]
   /\ wire' = Tail(wire)
-  /\ UNCHANGED <<sent, statusSent, got, combine, swpc, moved, tpc, status, pstate, shut, statusEv, reported, win>>
+  /\ UNCHANGED <<sent, statusSent, got, combine, swpc, offAt, moved, tpc, status, pstate, shut, statusEv, reported, win>>
 
 Route(m, flag) ==
   IF flag /\ Mutation # "ignore_combine"
@@ -174,7 +181,7 @@ FeedExtAtomic ==
   /\ swpc[Head(wire).c] # "moved"              \* (never "moved" when AtomicCombine)
   /\ Route(Head(wire), combine[Head(wire).c])
   /\ wire' = Tail(wire)
-  /\ UNCHANGED <<sent, statusSent, got, combine, swpc, moved, tpc, status, pstate, shut, statusEv, reported, win>>
+  /\ UNCHANGED <<sent, statusSent, got, combine, swpc, offAt, moved, tpc, status, pstate, shut, statusEv, reported, win>>
 
 \* pinned code: `if self.combine_stderr:` ... then the feed, no lock
 FeedExtTest ==
@@ -182,12 +189,12 @@ FeedExtTest ==
   /\ tpc = <<>> /\ wire # <<>> /\ Head(wire).s = "err"
   /\ tpc' = <<[m |-> Head(wire), flag |-> combine[Head(wire).c]]>>
   /\ wire' = Tail(wire)
-  /\ UNCHANGED <<sent, statusSent, buf, got, combine, swpc, moved, status, pstate, shut, statusEv, reported, win>>
+  /\ UNCHANGED <<sent, statusSent, buf, got, combine, swpc, offAt, moved, status, pstate, shut, statusEv, reported, win>>
 FeedExtFeed ==
   /\ tpc # <<>> /\ tpc[1].m.s = "err"
   /\ Route(tpc[1].m, tpc[1].flag)
   /\ tpc' = <<>>
-  /\ UNCHANGED <<sent, statusSent, wire, got, combine, swpc, moved, status, pstate, shut, statusEv, reported, win>>
+  /\ UNCHANGED <<sent, statusSent, wire, got, combine, swpc, offAt, moved, status, pstate, shut, statusEv, reported, win>>
 
 \* Channel._handle_request("exit-status"): two statements of the transport thread, a waiter may run in between
 \*     self.exit_status = m.get_int()        (Store)
@@ -203,24 +210,24 @@ ExitStatus1 ==
   /\ tpc' = <<[m |-> Head(wire), flag |-> FALSE]>>
   /\ wire' = Tail(wire)
   /\ (IF EventBeforeStatus THEN Signal(Head(wire).c) ELSE Store(Head(wire).c, Head(wire).pos))
-  /\ UNCHANGED <<sent, statusSent, buf, got, combine, swpc, moved, pstate, shut, reported, win>>
+  /\ UNCHANGED <<sent, statusSent, buf, got, combine, swpc, offAt, moved, pstate, shut, reported, win>>
 ExitStatus2 ==
   /\ tpc # <<>> /\ tpc[1].m.s = "exit"
   /\ tpc' = <<>>
   /\ (IF EventBeforeStatus THEN Store(tpc[1].m.c, tpc[1].m.pos) ELSE Signal(tpc[1].m.c))
-  /\ UNCHANGED <<sent, statusSent, wire, buf, got, combine, swpc, moved, pstate, shut, reported, win>>
+  /\ UNCHANGED <<sent, statusSent, wire, buf, got, combine, swpc, offAt, moved, pstate, shut, reported, win>>
 \* application: recv_exit_status() - waits for status_event, then returns exit_status
 RecvExitStatus(c) ==
   /\ statusEv[c] /\ reported[c] = Unread
   /\ reported' = [reported EXCEPT ![c] = status[c]]
-  /\ UNCHANGED <<sent, statusSent, wire, buf, got, combine, swpc, moved, tpc, status, pstate, shut, statusEv, win>>
+  /\ UNCHANGED <<sent, statusSent, wire, buf, got, combine, swpc, offAt, moved, tpc, status, pstate, shut, statusEv, win>>
 
 \* Channel._handle_eof / _handle_close: both pipes are closed (readers get EOF once they are empty)
 EofOrClose ==
   /\ tpc = <<>> /\ wire # <<>> /\ Head(wire).s \in {"eof", "close"}
   /\ shut' = [shut EXCEPT ![Head(wire).c] = TRUE]
   /\ wire' = Tail(wire)
-  /\ UNCHANGED <<sent, statusSent, buf, got, combine, swpc, moved, tpc, status, pstate, statusEv, reported, win>>
+  /\ UNCHANGED <<sent, statusSent, buf, got, combine, swpc, offAt, moved, tpc, status, pstate, statusEv, reported, win>>
 
 \* ---- application threads
 Recv(c, ep, k) ==
@@ -229,7 +236,7 @@ Recv(c, ep, k) ==
   /\ buf' = [buf EXCEPT ![c][ep] = DropBytes(@, IF Mutation = "skip_byte" THEN k + 1 ELSE k)]
   \* consumed bytes are granted back (CHANNEL_WINDOW_ADJUST; the 10 % threshold and the delay are abstracted away)
   /\ win' = IF Window = 0 THEN win ELSE [win EXCEPT ![c] = @ + Bytes(TakeBytes(buf[c][ep], k))]
-  /\ UNCHANGED <<sent, statusSent, wire, combine, swpc, moved, tpc, status, pstate, shut, statusEv, reported>>
+  /\ UNCHANGED <<sent, statusSent, wire, combine, swpc, offAt, moved, tpc, status, pstate, shut, statusEv, reported>>
 
 Old(c) == IF Mutation = "lose_old" THEN <<>> ELSE buf[c].err
 
@@ -239,7 +246,7 @@ CombineAtomic(c) ==
   /\ combine' = [combine EXCEPT ![c] = TRUE]
   /\ buf' = [buf EXCEPT ![c].out = Fed(@, c, Old(c)), ![c].err = <<>>]
   /\ swpc' = [swpc EXCEPT ![c] = "on"]
-  /\ UNCHANGED <<sent, statusSent, wire, got, moved, tpc, status, pstate, shut, statusEv, reported, win>>
+  /\ UNCHANGED <<sent, statusSent, wire, got, moved, offAt, tpc, status, pstate, shut, statusEv, reported, win>>
 
 \* pinned code: [lock: flag := TRUE; data := stderr.empty()] ... _feed(data)
 CombineTake(c) ==
@@ -248,13 +255,24 @@ CombineTake(c) ==
   /\ moved' = [moved EXCEPT ![c] = Old(c)]
   /\ buf' = [buf EXCEPT ![c].err = <<>>]
   /\ swpc' = [swpc EXCEPT ![c] = "moved"]
-  /\ UNCHANGED <<sent, statusSent, wire, got, tpc, status, pstate, shut, statusEv, reported, win>>
+  /\ UNCHANGED <<sent, statusSent, wire, got, offAt, tpc, status, pstate, shut, statusEv, reported, win>>
 CombineRefeed(c) ==
   /\ swpc[c] = "moved"
   /\ buf' = [buf EXCEPT ![c].out = Fed(@, c, moved[c])]
   /\ moved' = [moved EXCEPT ![c] = <<>>]
   /\ swpc' = [swpc EXCEPT ![c] = "on"]
-  /\ UNCHANGED <<sent, statusSent, wire, got, combine, tpc, status, pstate, shut, statusEv, reported, win>>
+  /\ UNCHANGED <<sent, statusSent, wire, got, combine, offAt, tpc, status, pstate, shut, statusEv, reported, win>>
+
+\* set_combine_stderr(False) after an earlier set_combine_stderr(True): one critical section of the channel lock,
+\* the flag goes back to FALSE; what is already in in_buffer stays there.  `combine` is what _feed_extended
+\* consults.  Mutation "sink_never_reset": the destination of stderr data is cached when combining is switched
+\* on and nothing points it back - the public flag reads FALSE, _feed_extended keeps feeding in_buffer.
+CombineOff(c) ==
+  /\ AllowOff /\ swpc[c] = "on"
+  /\ combine' = [combine EXCEPT ![c] = (Mutation = "sink_never_reset")]
+  /\ swpc' = [swpc EXCEPT ![c] = "offagain"]
+  /\ offAt' = [offAt EXCEPT ![c] = sent[c].err]
+  /\ UNCHANGED <<sent, statusSent, wire, buf, got, moved, tpc, status, pstate, shut, statusEv, reported, win>>
 
 Next == \/ \E c \in Chans, s \in Eps, n \in 1..MaxMsg : PeerWrite(c, s, n)
         \/ \E c \in Chans, v \in Statuses : PeerExit(c, v)
@@ -262,7 +280,7 @@ Next == \/ \E c \in Chans, s \in Eps, n \in 1..MaxMsg : PeerWrite(c, s, n)
         \/ FeedOut \/ FeedExtAtomic \/ FeedExtTest \/ FeedExtFeed \/ ExitStatus1 \/ ExitStatus2 \/ EofOrClose
         \/ \E c \in Chans : RecvExitStatus(c)
         \/ \E c \in Chans, ep \in Eps, k \in ReadSizes : Recv(c, ep, k)
-        \/ \E c \in Chans : CombineAtomic(c) \/ CombineTake(c) \/ CombineRefeed(c)
+        \/ \E c \in Chans : CombineAtomic(c) \/ CombineTake(c) \/ CombineRefeed(c) \/ CombineOff(c)
 Spec == Init /\ [][Next]_vars
 
 (* ------------------------------------------------------------------ the property *)
@@ -273,10 +291,18 @@ RightChannel == \A c \in Chans : \A j \in 1..Len(AllRuns(c)) : AllRuns(c)[j].c =
 RightStream == \A c \in Chans :
                  /\ \A j \in 1..Len(got[c].err) : got[c].err[j].s = "err"
                  /\ (swpc[c] = "off" => \A j \in 1..Len(got[c].out) : got[c].out[j].s = "out")
+                 \* combining switched off again: what the peer writes to stderr from then on is not on stdout
+                 /\ (swpc[c] = "offagain" => LET q == Of(got[c].out \o buf[c].out, c, "err") IN
+                                               \A j \in 1..Len(q) : q[j].pos + q[j].n <= offAt[c])
 \* stdout: exactly the written bytes, in order
 OutInOrder == \A c \in Chans : Contiguous(Of(got[c].out, c, "out"), 0)
 \* stderr: what recv_stderr returned, continued by the stderr bytes that recv returned, is the written stream
-ErrInOrder == \A c \in Chans : Contiguous(Of(got[c].err, c, "err") \o Of(got[c].out, c, "err"), 0)
+\* (after on -> off again the stderr stream is split between the two endpoints at switch points the reader
+\* cannot see: each endpoint's share is in order without repetition, Lossless says the shares add up)
+Increasing(q) == \A j \in 2..Len(q) : q[j].pos >= q[j - 1].pos + q[j - 1].n
+ErrInOrder == \A c \in Chans : IF swpc[c] = "offagain"
+                                THEN Increasing(Of(got[c].err, c, "err")) /\ Increasing(Of(got[c].out, c, "err"))
+                                ELSE Contiguous(Of(got[c].err, c, "err") \o Of(got[c].out, c, "err"), 0)
 \* once set_combine_stderr(True) has returned nothing is left for, or added to, the stderr endpoint
 CombinedMeansNoStderr == \A c \in Chans : swpc[c] = "on" => buf[c].err = <<>>
 \* nothing is lost: when everything written has been delivered and read, every byte was returned
@@ -292,6 +318,6 @@ ExitStatusRight == \A c \in Chans :
                      /\ reported[c] # Unread => reported[c] = statusSent[c]       \* incl.: never "no status" (-1)
 
 TypeOK == /\ \A c \in Chans : sent[c].out \in 0..MaxBytes /\ sent[c].err \in 0..MaxBytes
-          /\ \A c \in Chans : swpc[c] \in {"off", "moved", "on"}
+          /\ \A c \in Chans : swpc[c] \in {"off", "moved", "on", "offagain"}
           /\ Len(tpc) <= 1
 =============================================================================
